@@ -60,7 +60,19 @@ func (p *Prog) SSA() *SSAProg {
 	if s := ssaCache[p]; s != nil {
 		return s
 	}
-	prog, _ := ssautil.Packages(p.Pkgs, ssa.InstantiateGenerics)
+	prog := ssa.NewProgram(p.Fset, ssa.InstantiateGenerics)
+	modTypes := map[*types.Package]bool{}
+	for _, pk := range p.Pkgs {
+		modTypes[pk.Types] = true
+	}
+	for _, path := range SortedKeys(p.allTypes) {
+		if tp := p.allTypes[path]; !modTypes[tp] {
+			prog.CreatePackage(tp, nil, nil, true) // declarations only
+		}
+	}
+	for _, pk := range p.Pkgs {
+		prog.CreatePackage(pk.Types, pk.Syntax, pk.TypesInfo, true)
+	}
 	prog.Build()
 	all := ssautil.AllFunctions(prog)
 	s := &SSAProg{p: p, Prog: prog, Funcs: map[*ssa.Function]bool{}, succ: map[*ssa.Function][]ssaEdge{}, byObj: map[*types.Func]*ssa.Function{}}
